@@ -23,8 +23,23 @@ def to1x(text, version, rng, respell_math=False):
         return rng.choice(['', ' public_interface="none"', ' private_interface="none" public_interface="none"'])
     t = re.sub(r' interface="(\w+)"', iface, t)
     # encapsulation
-    t = re.sub(r'<encapsulation([^>]*)>', r'<group\1><relationship_ref relationship="encapsulation"/>', t)
+    # a 1.x group may carry several relationship_ref elements (encapsulation and a named containment hierarchy), in any order;
+    # a group that only describes containment is not encapsulation and is dropped
+    def group(m):
+        refs = ['<relationship_ref relationship="encapsulation"/>']
+        r = rng.random()
+        if r < 0.25:
+            refs.append('<relationship_ref relationship="containment" name="anatomy"/>')
+        elif r < 0.5:
+            refs.insert(0, '<relationship_ref relationship="containment" name="anatomy"/>')
+        return '<group%s>%s' % (m.group(1), ''.join(refs))
+    t = re.sub(r'<encapsulation([^>]*)>', group, t)
     t = t.replace('</encapsulation>', '</group>')
+    comps = re.findall(r'<component name="([^"]*)"', t)
+    if len(comps) >= 2 and rng.random() < 0.25:
+        a, b = rng.sample(comps, 2)
+        extra = '  <group><relationship_ref relationship="containment" name="physical"/><component_ref component="%s"><component_ref component="%s"/></component_ref></group>\n' % (a, b)
+        t = t.replace('</model>', extra + '</model>', 1)
     # connections
     t = re.sub(r'<connection component_1="([^"]*)" component_2="([^"]*)"([^>]*)>', r'<connection><map_components component_1="\1" component_2="\2"\3/>', t)
     # spellings
